@@ -251,6 +251,47 @@ func main(n : int) -> int {
 }
 """ % (k1[1], k2[1], k3[1], k1[0], k2[1], k2[0], k3[1], k3[0]),
         dict(exc=True, chain=True, shape=True, expect_out="c1\nc2\nc3\n-3\r\nc2\nc3\n-3\r\nc3\n-3\r\n1\r\n", expect_res="I0")))
+    # many functions with a clause each: the exception table grows through its capacity steps (the number of entries crosses
+    # 2^k - 1); a fault in the LAST emitted function and in the first must still find its own clause
+    N = rng.choice([14, 15, 16, 30, 31, 32]) + rng.range(0, 1)
+    extra = rng.range(0, 1)
+    fs = ["func plain%d(d : int) -> int { d + %d }" % (i, i) for i in range(extra)]
+    fs += ["func f%d(d : int) -> int { %d / d }\ncatch (division_by_zero) { %d }" % (i, 100 + i, 1000 + i) for i in range(N)]
+    picks = [0, N - 1, N // 2, N - 2]
+    body = "".join("    print(f%d(0)); print(f%d(1));\n" % (i, i) for i in picks)
+    exp = "".join("%d\r\n%d\r\n" % (1000 + i, 100 + i) for i in picks)
+    out.append(("exc_many_handlers", "\n".join(fs) + "\nfunc main(n : int) -> int {\n" + body + "    0\n}\n",
+                dict(exc=True, shape=True, handlers=N, expect_out=exp, expect_res="I0")))
+    # failures of foreign calls are faults like any other: a nil record (also nested, before a non-nil one), a nil string, a
+    # missing library, a missing symbol each raise ffi_fail, delivered to the clause of the calling function; the callee is not run
+    k = rng.range(1, 9)
+    out.append(("exc_ffi_fail", """
+record In { a : int; }
+record Out { i : In; j : In; b : int; }
+record Addr { s_addr : int; }
+extern "libc.so.6" func abs(o : Out) -> int
+extern "libc.so.6" func inet_ntoa(a : Addr) -> string
+extern "libc.so.6" func strlen(s : string) -> long
+extern "libnosuchlibrary.so" func nolib(x : int) -> int
+extern "libc.so.6" func no_such_symbol_anywhere(x : int) -> int
+func nested(o : Out) -> int { abs(o) + 100 } catch (ffi_fail) { 0 - 1 }
+func flat(a : Addr) -> int { length(inet_ntoa(a)) } catch (ffi_fail) { 0 - 2 }
+func str(ss[D] : string) -> int { strlen(ss[0]) == 0L ? 10 : 11 } catch (ffi_fail) { 0 - 3 }
+func lib(x : int) -> int { nolib(x) } catch (ffi_fail) { 0 - 4 }
+func sym(x : int) -> int { no_such_symbol_anywhere(x) } catch (ffi_fail) { 0 - 5 }
+func outer(x : int) -> int { lib(x) * 10 + nolib(x) } catch (ffi_fail) { 0 - 6 }
+func main(n : int) -> int {
+    var ni = In; ni = nil;
+    var na = Addr; na = nil;
+    let ss = {[ 2 ]} : string;
+    print(nested(Out(In(%d), In(2), 3)));
+    print(nested(Out(ni, In(2), 3)));
+    print(nested(Out(In(1), ni, 3)));
+    print(flat(Addr(16777343))); print(flat(na));
+    print(str(ss)); print(lib(1)); print(sym(1)); print(outer(1));
+    0
+}
+""" % k, dict(exc=True, shape=True, ffi=True, expect_out="%d\r\n-1\r\n-1\r\n9\r\n-2\r\n-3\r\n-4\r\n-5\r\n-6\r\n" % (k + 100), expect_res="I0")))
     return out
 
 def idx_family(rng):
